@@ -65,3 +65,55 @@ spec fn header_ok(b: Seq<u8>) -> bool {
 spec fn data_block_len(h: Header, ts: int) -> int {
     h.transition_count * ts + h.transition_count + h.type_count * 6 + h.char_count + h.leap_count * (ts + 4) + h.std_wall_count + h.ut_local_count
 }
+
+// the zone (or error) that the decoder proper, DataBlocks::parse, produces from the seven blocks, the header and the footer.
+// Uninterpreted: the decoder's body is outside Verus's subset; only "it is a function of these arguments" is used.
+uninterp spec fn decoded_zone(transition_times: Seq<u8>, transition_types: Seq<u8>, local_time_types: Seq<u8>, time_zone_designations: Seq<u8>, leap_seconds: Seq<u8>, std_walls: Seq<u8>, ut_locals: Seq<u8>, header: Header, footer: Option<&[u8]>) -> Result<TimeZone, TzError>;
+
+impl vstd::std_specs::convert::FromSpecImpl<TzFileError> for TzError {
+    open spec fn obeys_from_spec() -> bool { true }
+    open spec fn from_spec(e: TzFileError) -> Self { TzError::TzFile(e) }
+}
+
+// the header that a well-formed 44-byte prefix denotes
+spec fn hdr_of(b: Seq<u8>) -> Header {
+    Header {
+        version: if b[4] == 0x00 { Version::V1 } else if b[4] == 0x32 { Version::V2 } else { Version::V3 },
+        ut_local_count: be32(b.subrange(20, 24)) as usize,
+        std_wall_count: be32(b.subrange(24, 28)) as usize,
+        leap_count: be32(b.subrange(28, 32)) as usize,
+        transition_count: be32(b.subrange(32, 36)) as usize,
+        type_count: be32(b.subrange(36, 40)) as usize,
+        char_count: be32(b.subrange(40, 44)) as usize,
+    }
+}
+
+// the decoder applied to a data block `d` cut as RFC 8536 prescribes for header h and time size ts
+spec fn decode_block(d: Seq<u8>, h: Header, ts: int, footer: Option<&[u8]>) -> Result<TimeZone, TzError> {
+    let n0 = h.transition_count * ts;
+    let n1 = n0 + h.transition_count;
+    let n2 = n1 + h.type_count * 6;
+    let n3 = n2 + h.char_count;
+    let n4 = n3 + h.leap_count * (ts + 4);
+    let n5 = n4 + h.std_wall_count;
+    let n6 = n5 + h.ut_local_count;
+    decoded_zone(d.subrange(0, n0), d.subrange(n0, n1), d.subrange(n1, n2), d.subrange(n2, n3), d.subrange(n3, n4), d.subrange(n4, n5), d.subrange(n5, n6), h, footer)
+}
+
+// C08, file level: a version-1 file is a header plus exactly its 32-bit data block
+spec fn tzif_v1_shape(b: Seq<u8>) -> bool {
+    header_ok(b) && b[4] == 0x00 && 44 + data_block_len(hdr_of(b), 4) == b.len()
+}
+
+// a version-2/3 file: header, 32-bit block (skipped), second header, 64-bit block, footer
+spec fn tzif_v2_rest(b: Seq<u8>) -> Seq<u8> {
+    b.subrange(44 + data_block_len(hdr_of(b), 4), b.len() as int)
+}
+
+spec fn tzif_v2_shape(b: Seq<u8>) -> bool {
+    &&& header_ok(b)
+    &&& b[4] != 0x00
+    &&& 44 + data_block_len(hdr_of(b), 4) <= b.len()
+    &&& header_ok(tzif_v2_rest(b))
+    &&& 44 + data_block_len(hdr_of(tzif_v2_rest(b)), 8) <= tzif_v2_rest(b).len()
+}
